@@ -347,7 +347,7 @@ def make_catalogue(timeout):
 
 
 def conditions(tier, seed):
-    to = 60.0 if tier == "quick" else 240.0
+    to = 90.0 if tier == "quick" else 300.0
     out = []
     for container in range(4):
         for ka in range(4):
